@@ -154,6 +154,17 @@ class ComponentBump:
         """
         if self.to_rbuild is None:
             return {}
+        # whatever the 'from' builds contain (the builds themselves and all
+        # their ancestors) was already included into previous builds of the
+        # parent repo, so it is not a part of this bump - even if it can be
+        # reached from 'to_rbuild' by a path which by-passes the 'from' builds
+        excluded_iids = set()
+        todo = list(self.from_rbuilds.values())
+        while todo:
+            rbuild = todo.pop()
+            if rbuild.iid not in excluded_iids:
+                excluded_iids.add(rbuild.iid)
+                todo.extend(rbuild.parent_rbuilds.values())
         # DFS rbuilds in the component
         dfs_stack = [[self.to_rbuild]]
         dfs_sp = [0]
@@ -177,7 +188,7 @@ class ComponentBump:
 
             cur_rbuild = dfs_stack[-1][cur_sp]
 
-            if cur_rbuild.iid in self.from_rbuilds:
+            if cur_rbuild.iid in excluded_iids:
                 # do not go deeper
                 dfs_sp[-1] = cur_sp - 1
                 continue
